@@ -388,19 +388,20 @@ let codec_line (l : string) : string =
   | "dec", [t; Atom h] -> dec_model (ty_of_sx t) (unhex h)
   | "reenc", [t; Atom h] ->
       (* decode (reference decoder), then encode the decoded value as it stands (sets and maps in the
-         order of the input): `ok HEX REST` *)
+         order of the input): `<dec result> ;; ok HEX` *)
       let t = ty_of_sx t and bs = unhex h in
       let fuel = nat_of_int (64 + 4 * List.length bs) in
       (match decodeA fuel !cur_env t bs [] with
        | Ok ((v, rest), _) ->
+           let d = "ok " ^ print_val !cur_env true t v ^ " " ^ string_of_int (List.length rest) in
            (match enc fuel !cur_env t v [] with
-            | Ok (b, _) -> "ok " ^ hex b ^ " " ^ string_of_int (List.length rest)
-            | Err e -> "encerr " ^ err_class e
-            | Panic p -> "encpanic " ^ pkind_str p
-            | Fuel -> "encfuel")
-       | Err e -> "err " ^ err_class e
-       | Panic p -> "panic " ^ pkind_str p
-       | Fuel -> "fuel")
+            | Ok (b, _) -> d ^ " ;; ok " ^ hex b
+            | Err e -> d ^ " ;; err " ^ err_class e
+            | Panic p -> d ^ " ;; panic " ^ pkind_str p
+            | Fuel -> d ^ " ;; fuel")
+       | Err e -> "err " ^ err_class e ^ " ;; -"
+       | Panic p -> "panic " ^ pkind_str p ^ " ;; -"
+       | Fuel -> "fuel ;; -")
   | "rt", [t; v; Atom sfx] ->
       let t = ty_of_sx t in
       let v = val_of_sx v in
